@@ -84,6 +84,14 @@ type Op struct {
 	How     string   `json:"how,omitempty"`    // agglo: "index" (POST index per label) or "indices" (one batch)
 	Chosen  bool     `json:"chosen,omitempty"` // splitsv: the client names the new supervoxels
 	NewObs  *Obs     `json:"-"`                // agglo: the observation of the target state (the posted indices)
+	// LabelmapLevels.tla: the blocks a voxel write posts (overwrite; How = "box" | "nomutate"), the scale and block of a
+	// direct lower-resolution write (writelevel; How = "blocks" | "ingest"); splitsv with How = "nodownres"
+	Posted []int `json:"posted,omitempty"`
+	Scale  int   `json:"scale,omitempty"`
+	Block  int   `json:"block,omitempty"`
+	// renumber: further (old, new) pairs of the same request; Onto: the new label is a label that was used before
+	Pairs [][2]uint64 `json:"pairs,omitempty"`
+	Onto  bool        `json:"onto,omitempty"`
 	NewSV   []uint64 `json:"-"` // target supervoxel array (for overwrite)
 	OldSV   []uint64 `json:"-"` // source supervoxel array (for overwrite)
 }
@@ -426,7 +434,11 @@ func (in *Inst) Apply(uuid string, op Op, lab *Labels) (int, []string, error) {
 			lab.Dead = append(lab.Dead, old)
 			return 200, probs, nil
 		}
-		r, err := in.http("POST", fmt.Sprintf("%s/split-supervoxel/%d", base, old), payload)
+		dq := ""
+		if op.How == "nodownres" {
+			dq = "?downres=false" // the lower-resolution levels are left as they are
+		}
+		r, err := in.http("POST", fmt.Sprintf("%s/split-supervoxel/%d%s", base, old, dq), payload)
 		if err != nil || r.Status != 200 {
 			return r.Status, nil, err
 		}
@@ -527,6 +539,13 @@ func (in *Inst) Apply(uuid string, op Op, lab *Labels) (int, []string, error) {
 				}
 			}
 		}
+		if op.Posted != nil {
+			// the specification names the blocks of the request (a whole box in one POST raw)
+			if err := in.IngestBox(uuid, lab.reals(op.NewSV), op.Posted, op.How != "nomutate"); err != nil {
+				return 400, nil, nil
+			}
+			return 200, nil, nil
+		}
 		if in.MultiBlock {
 			if err := in.IngestRows(uuid, lab.reals(op.NewSV), blocks, true); err != nil {
 				return 400, nil, nil
@@ -537,6 +556,9 @@ func (in *Inst) Apply(uuid string, op Op, lab *Labels) (int, []string, error) {
 			return 400, nil, nil
 		}
 		return 200, nil, nil
+	case "writelevel":
+		st, err := in.WriteLevel(uuid, op.Scale, op.Block, lab.Real(op.Label), op.How)
+		return st, nil, err
 	case "split":
 		reg := map[int]bool{}
 		for _, r := range op.Regions {
@@ -591,9 +613,20 @@ func (in *Inst) Apply(uuid string, op Op, lab *Labels) (int, []string, error) {
 		r2, err := in.http("POST", base+"/mappings", b)
 		return r2.Status, nil, err
 	case "renumber":
-		// the new label is chosen by the client: above everything seen so far
+		// the new label is chosen by the client: above everything seen so far, or (Onto) a label that was in use
+		// before and is free now; further pairs travel in the same request [new1, old1, new2, old2, ...]
 		newReal := in.MaxSeen + 3
-		b, _ := json.Marshal([]uint64{newReal, lab.Real(op.Old)})
+		if op.Onto {
+			newReal = lab.Real(op.New)
+		}
+		arr := []uint64{newReal, lab.Real(op.Old)}
+		binds := [][2]uint64{{op.New, newReal}}
+		for i, pr := range op.Pairs {
+			nr := in.MaxSeen + 5 + 2*uint64(i)
+			arr = append(arr, nr, lab.Real(pr[0]))
+			binds = append(binds, [2]uint64{pr[1], nr})
+		}
+		b, _ := json.Marshal(arr)
 		r, err := in.http("POST", base+"/renumber", b)
 		if err != nil || r.Status != 200 {
 			return r.Status, nil, err
@@ -603,9 +636,11 @@ func (in *Inst) Apply(uuid string, op Op, lab *Labels) (int, []string, error) {
 		if o.MutationID != 0 {
 			in.noteMut(o.MutationID, &probs, "renumber")
 		}
-		lab.Bind(op.New, newReal)
-		if newReal > in.MaxSeen {
-			in.MaxSeen = newReal
+		for _, bd := range binds {
+			lab.Bind(bd[0], bd[1])
+			if bd[1] > in.MaxSeen {
+				in.MaxSeen = bd[1]
+			}
 		}
 		return 200, probs, nil
 	}
